@@ -7,8 +7,10 @@ package api
 import (
 	"errors"
 	"net/http"
+	"net/url"
 	"time"
 
+	"github.com/gorilla/mux"
 	"github.com/tevino/abool"
 
 	rt "github.com/safing/portbase/zz_verifrt"
@@ -41,6 +43,7 @@ func symPerm(name string) Permission { return Permission(rt.I8(name)) }
 // credential state -> reference effective permissions (granted read/write).
 // ok=false means the reference predicts an error reply from checkAuth itself.
 type credState struct {
+	scenario   int
 	dev        bool
 	bridge     bool
 	authHeader string
@@ -67,6 +70,7 @@ func setupCredentials() (*http.Request, *credState) {
 	// 0 none, 1 dev mode, 2 bridge, 3 api key, 4 cookie, 5 authenticator,
 	// 6 key+cookie+authenticator together (precedence), 7 dev mode + everything
 	sc := rt.Choice("scenario", 8)
+	cs.scenario = sc
 	cs.dev = sc == 1 || sc == 7
 	devMode = func() bool { return cs.dev }
 	cs.bridge = sc == 2
@@ -214,13 +218,17 @@ func VerifC12_Authenticate() {
 	if readMethod {
 		required = h.read
 	}
-	rt.ObserveBool("granted", token != nil)
-	if token != nil {
-		rt.Observe("token-read", uint64(uint8(token.Read)))
-		rt.Observe("token-write", uint64(uint8(token.Write)))
-	}
-	for _, c := range w.codes {
-		rt.Observe("reply", uint64(c))
+	if cs.authHeader != "Basic eDp5" {
+		// (Basic credentials are decoded by a contract stub under the engine:
+		// not comparable with the native run)
+		rt.ObserveBool("granted", token != nil)
+		if token != nil {
+			rt.Observe("token-read", uint64(uint8(token.Read)))
+			rt.Observe("token-write", uint64(uint8(token.Write)))
+		}
+		for _, c := range w.codes {
+			rt.Observe("reply", uint64(c))
+		}
 	}
 	if token != nil {
 		rt.Assert(len(w.codes) == 0, "auth/granted-without-error-reply")
@@ -431,5 +439,190 @@ func setupGlobalsC12() {
 	}
 	if apiKeys == nil {
 		apiKeys = make(map[string]*AuthToken)
+	}
+}
+
+// ---- end to end: mainHandler.handle invokes the handler only for permitted,
+// same-origin (or excepted) requests ----
+
+// route table stand-in for gorilla/mux under the engine (natively the real
+// router is used): what Match reports for the request
+var c12Route struct {
+	handler http.Handler
+	err     error
+}
+
+// VerifModel_mux_Router_Match replaces (*mux.Router).Match under the engine.
+func VerifModel_mux_Router_Match(_ *mux.Router, _ *http.Request, match *mux.RouteMatch) bool {
+	match.Handler = c12Route.handler
+	match.MatchErr = c12Route.err
+	return c12Route.err == nil && c12Route.handler != nil
+}
+
+type c12Origin struct {
+	origin, host string
+	allowed      bool // outside dev mode
+	devAllowed   bool // in dev mode
+}
+
+// (a function: the package initialiser is not executed under the engine)
+func c12Origins() []c12Origin {
+	return []c12Origin{
+		{"", "app.local:817", true, true},
+		{"http://app.local:817", "app.local:817", true, true},
+		{"http://app.local", "app.local", true, true},
+		{"http://app.local:817", "app.local", true, true}, // origin without its port matches the host
+		{"http://app.local", "app.local:817", false, false},
+		{"http://app.local:8170", "app.local:817", false, false}, // sibling port sharing a prefix
+		{"http://app.local:817", "app.local:8170", false, false},
+		{"http://evil.example", "app.local:817", false, false},
+		{"http://app.local.evil.example", "app.local", false, false},
+		{"http://evil.example/app.local", "app.local", false, false},
+		{"chrome-extension://abcdefgh", "app.local:817", true, true},
+		{"http://localhost:4200", "app.local:817", false, true},
+		{"http://127.0.0.1:4200", "app.local:817", false, true},
+		{"http://localhost.evil.example", "app.local:817", false, false},
+		{"null", "app.local:817", false, false},
+		{"://bad", "app.local:817", false, false},
+	}
+}
+
+// every origin of the table against three credential scenarios
+func VerifC12_HandleOrigin() { c12Handle(true) }
+
+// every credential scenario, method and routing outcome for requests without
+// Origin, with a same-origin Origin and with a development-mode origin
+func VerifC12_HandleDispatch() { c12Handle(false) }
+
+func c12Handle(allOrigins bool) {
+	// origin / host
+	origins := c12Origins()
+	var o c12Origin
+	if allOrigins {
+		o = origins[rt.Choice("origin", len(origins))]
+	} else {
+		o = origins[[]int{0, 1, 12}[rt.Choice("origin", 3)]]
+	}
+	r, cs := setupCredentials()
+	if allOrigins {
+		// no credentials, authenticator, development mode with everything
+		rt.Assume(cs.scenario == 0 || cs.scenario == 5 || cs.scenario == 7)
+	}
+	h := &verifHandler{read: symPerm("h.read"), write: symPerm("h.write")}
+	if o.origin != "" {
+		r.Header["Origin"] = []string{o.origin}
+	}
+	r.Host = o.host
+	originOK := o.allowed
+	if cs.dev {
+		originOK = o.devAllowed
+	}
+	// method
+	methods := []string{"GET", "HEAD", "POST", "PUT", "DELETE", "OPTIONS", "PATCH"}
+	if allOrigins {
+		r.Method = []string{"GET", "POST", "OPTIONS"}[rt.Choice("method", 3)]
+	} else {
+		r.Method = methods[rt.Choice("method", len(methods))]
+	}
+	preflight := ""
+	if r.Method == "OPTIONS" && rt.Bool("preflight") {
+		preflight = methods[rt.Choice("preflightmethod", len(methods))]
+		r.Header["Access-Control-Request-Method"] = []string{preflight}
+	}
+	r.URL = &url.URL{Path: "/api/v1/thing"}
+	r.RequestURI = "/api/v1/thing"
+	// routing
+	mh := &mainHandler{}
+	route := 0 // 0 registered, 1 no route, 2 method mismatch
+	if !allOrigins {
+		route = rt.Choice("route", 3)
+	}
+	if rt.Symbolic() {
+		mh.mux = &mux.Router{}
+		switch route {
+		case 0:
+			c12Route.handler, c12Route.err = h, nil
+		case 1:
+			c12Route.handler, c12Route.err = nil, mux.ErrNotFound
+		case 2:
+			c12Route.handler, c12Route.err = nil, mux.ErrMethodMismatch
+		}
+	} else {
+		mh.mux = mux.NewRouter()
+		switch route {
+		case 0:
+			mh.mux.Handle("/api/v1/thing", h)
+		case 2:
+			mh.mux.Handle("/api/v1/thing", h).Methods("TRACE")
+		}
+	}
+	authCalled := false
+	if authFn != nil {
+		inner := authFn
+		authFn = func(r *http.Request, s *http.Server) (*AuthToken, error) {
+			authCalled = true
+			return inner(r, s)
+		}
+	}
+	w := &verifRW{h: http.Header{}}
+
+	err := mh.handle(w, r)
+	rt.Assert(err == nil, "handle/no-internal-error")
+
+	// effective method class
+	eff := r.Method
+	if r.Method == "OPTIONS" {
+		eff = preflight
+	}
+	isRead := eff == "GET" || eff == "HEAD"
+	isWrite := eff == "POST" || eff == "PUT" || eff == "DELETE"
+	required := h.write
+	if isRead {
+		required = h.read
+	}
+	if !originOK {
+		rt.Assert(!h.invoked, "handle/cross-origin-handler-not-invoked")
+		rt.Assert(!authCalled, "handle/cross-origin-refused-before-authenticator")
+		rt.Assert(len(w.codes) == 1 && w.codes[0] == 403, "handle/cross-origin-refused-with-403")
+		rt.Reach("handle-cross-origin")
+		return
+	}
+	if h.invoked {
+		rt.Assert(route == 0, "handle/invoked-only-when-routed")
+		rt.Assert(isRead || isWrite, "handle/invoked-only-for-known-method")
+		rt.Assert(!(o.origin != "" && r.Method == "OPTIONS" && preflight != ""), "handle/preflight-never-reaches-handler")
+		rt.Assert(required != NotFound && required != NotSupported, "handle/notfound-notsupported-never-invoked")
+		effReq := required
+		if required == Dynamic {
+			effReq = PermitAnyone
+		}
+		rt.Assert(inRange(effReq), "handle/required-in-range")
+		if effReq != PermitAnyone && cs.authHeader != "Basic eDp5" {
+			ref, status := cs.reference(effReq > PermitAnyone)
+			rt.Assert(status == 0, "handle/reference-predicts-grant")
+			if status == 0 {
+				granted := ref.Write
+				if isRead {
+					granted = ref.Read
+				}
+				rt.Assert(rt.All(inRange(granted), granted >= effReq), "handle/invoked-only-with-sufficient-permission")
+			}
+		}
+		rt.Assert(len(w.codes) == 0, "handle/invoked-without-error-reply")
+		rt.Reach("handle-invoked")
+	} else {
+		rt.Assert(len(w.codes) == 1, "handle/not-invoked-exactly-one-reply")
+		// a permitted, routed, known-method, non-preflight request must reach the handler
+		if route == 0 && (isRead || isWrite) && !(o.origin != "" && r.Method == "OPTIONS") && inRange(required) && cs.authHeader != "Basic eDp5" {
+			ref, status := cs.reference(required > PermitAnyone)
+			if status == 0 {
+				granted := ref.Write
+				if isRead {
+					granted = ref.Read
+				}
+				rt.Assert(!rt.All(inRange(granted), granted >= required), "handle/permitted-request-reaches-handler")
+			}
+		}
+		rt.Reach("handle-refused")
 	}
 }
